@@ -198,7 +198,7 @@ type c08Blind struct {
 }
 
 var c08BlindVals = []uint8{0x00, 0x01, 0x0a, 0x1f, 0x20, 0x21, 0x60, 0xff}
-var c08BlindAddrs = []uint16{0x0000, 0x2000, 0x2100, 0x3000, 0x4000, 0x6000}
+var c08BlindAddrs = []uint16{0x0000, 0x2000, 0x2100, 0x3000, 0x4000, 0x6000, 0xa000, 0xa100} // the last two: stores into the RAM window are not control writes
 
 func c08BlindCheck(l *explore.Local, _ struct{}, c c08Blind) *explore.Fail {
 	p := tryCartPair(c.Spec)
